@@ -110,6 +110,7 @@ static void *trampoline(void *p)
   Thread *t = (Thread *)p;
   tl_self = t;
   tl_rt_depth = 0;
+#ifndef RKSIM_ASAN_LANE  // (ASan installs and later unmaps an alternate stack of its own for every thread)
   {
     // an alternate signal stack per simulated thread: a stack overflow in the code under test is then reported by the crash
     // handler (violation 'crash:signal-11' with the decisions so far) instead of killing the child without a word
@@ -120,6 +121,7 @@ static void *trampoline(void *p)
     ss.ss_flags = 0;
     sigaltstack(&ss, nullptr);
   }
+#endif
   park(t);
   // registered first => destroyed last: thread_local destructors of the code under test still
   // run as part of the simulated thread (holding the baton)
